@@ -95,7 +95,7 @@ func implURL(target string) urlImpl {
 	location.Scheme = "http"
 	location.Host = "127.0.0.1:1"
 	location.Path = u.Path
-	location.RawPath = u.RawPath
+	location.RawPath = locationRawPath(u.RawPath) // the real escapeInvalidPathBytes (escape_shim.go)
 	location.RawQuery = u.Query().Encode()
 	o.Query = rig.Hex(location.RawQuery)
 	// real: NewUpgradeAwareHandler -> normalizeLocation
@@ -145,6 +145,10 @@ func runURL(c *rig.Ctx, target string, record bool) bool {
 	}
 	if m.Out == nil {
 		return fail("diff", "c04.url.accept", "net/url accepts a target the model refuses")
+	}
+	if !haveEscapeShim && !m.Valid {
+		c.Count("url:no-escape-shim")
+		return true
 	}
 	if *impl.Out != *m.Out || deref(impl.Path) != deref(m.Path) || deref(impl.RawPath) != deref(m.RawPath) || impl.Query != m.Query {
 		return fail("diff", "c04.url.out", fmt.Sprintf("model %q, code %q", rig.UnHex(deref(m.Out)), rig.UnHex(*impl.Out)))
@@ -711,22 +715,14 @@ func runTerm(c *rig.Ctx, w *world, cs Case, record bool) bool {
 			return fail("judge", "c04.term.proxy-error-not-status", fmt.Sprintf("a failed forward is answered with %d %q", obs.HTTPCode, obs.BodyHead), obs, m)
 		}
 		return true
-	case "plain":
-		// the model mirrors the code: responsewriters.InternalError writes text/plain. The property demands a Status.
-		if obs.UpstreamRequests != 0 || obs.UpstreamBytes != 0 {
-			return fail("judge", "c04.term.forwarded", "a terminated request reached an upstream", obs, m)
-		}
-		if obs.HTTPCode != m.Outcome.Code {
-			return fail("diff", "c04.term.code", fmt.Sprintf("model %d, code %d", m.Outcome.Code, obs.HTTPCode), obs, m)
-		}
-		if !m.WellFormed {
-			return fail("judge", "c04.term.not-a-status.requestinfo-error", fmt.Sprintf("gateway-terminated answer %d is not an API Status: Content-Type %q body %q", obs.HTTPCode, obs.ContentType, obs.BodyHead), obs, m)
-		}
-		return fail("diff", "c04.term.plain", "the model says text/plain, the code answered a Status", obs, m)
 	}
 	// terminated
 	if obs.UpstreamRequests != 0 || obs.UpstreamBytes != 0 {
 		return fail("judge", "c04.term.forwarded", fmt.Sprintf("a terminated request reached an upstream (%d request heads, %d bytes)", obs.UpstreamRequests, obs.UpstreamBytes), obs, m)
+	}
+	if !m.WellFormed && !sc.RequestInfoOK {
+		// the shape finding C04-requestinfo-error-plain-500 had before bd02b39 (text/plain from responsewriters.InternalError)
+		return fail("judge", "c04.term.not-a-status.requestinfo-error", fmt.Sprintf("gateway-terminated answer %d to a request whose RequestInfo cannot be resolved is not an API Status: Content-Type %q body %q", obs.HTTPCode, obs.ContentType, obs.BodyHead), obs, m)
 	}
 	if !m.WellFormed {
 		return fail("judge", "c04.term.not-a-status", fmt.Sprintf("gateway-terminated answer %d is not a well-formed API Status whose code is the HTTP code: Content-Type %q body %q", obs.HTTPCode, obs.ContentType, obs.BodyHead), obs, m)
